@@ -106,6 +106,7 @@ func (c *Channel) Close() error {
 
 		// avoid any new state changes
 		c.cancel()
+		verifPoint("chan.close", c, 0)
 	})
 
 	return closeErr
@@ -152,6 +153,7 @@ func (c *Channel) Get(ctx context.Context) (value interface{}, err error) {
 			if c.rollback > 0 {
 				value = c.buffer[c.pending()] // value read from the next pending value
 				c.rollback--                  // increments the next pending value for commit / rollback state
+				verifPoint("chan.get.replay", c, c.rollback)
 				return true
 			}
 
@@ -162,9 +164,11 @@ func (c *Channel) Get(ctx context.Context) (value interface{}, err error) {
 			if ok {
 				value = v.Interface()
 				c.buffer = append(c.buffer, value) // value appended to the buffer, for commit or rollback
+				verifPoint("chan.get.recv", c, len(c.buffer))
 				return true
 			}
 
+			verifPoint("chan.poll.empty", c, 0)
 			// a value wasn't available this time (we cannot handle the closed channel state meaningfully here)
 			return false
 		}() {
@@ -217,6 +221,7 @@ func (c *Channel) Commit() error {
 
 	// shift pending items off the front of the buffer
 	c.buffer = c.buffer[pending:]
+	verifPoint("chan.commit", c, pending)
 
 	return nil
 }
@@ -238,6 +243,7 @@ func (c *Channel) Rollback() error {
 	}
 
 	c.rollback += pending
+	verifPoint("chan.rollback", c, pending)
 
 	return nil
 }
